@@ -163,6 +163,14 @@ pub(super) mod udp {
         }
     }
 
+    #[cfg(octo_squirrel_verif)]
+    impl<const N: usize> DatagramPacketCodec<'_, N> {
+        /// verification hook: place the session's packet counter (to reach the end of the id space)
+        pub fn verif_set_packet_id(&mut self, packet_id: u64) {
+            self.session.packet_id = packet_id;
+        }
+    }
+
     impl<const N: usize> Encoder<DatagramPacket> for DatagramPacketCodec<'_, N> {
         type Error = anyhow::Error;
 
